@@ -159,13 +159,18 @@ func (s *streamWriter) init() {
 			}
 		default:
 			slog.Debug("remote using TLS for writing")
-			rawconn, err = tls.Dial("tcp", s.writeToAddr, s.tlsConfig)
-			if err != nil {
+			// tls.Dial returns a nil *tls.Conn on failure. Assigned to rawconn
+			// (a net.Conn) directly, that nil pointer would make the interface
+			// non-nil and the "could not reach the remote" test below would miss it.
+			tlsconn, tlserr := tls.Dial("tcp", s.writeToAddr, s.tlsConfig)
+			if tlserr != nil {
+				err = tlserr
 				d := time.Duration(delay * time.Duration(i*2))
 				slog.Error("tls.Dial", "err", err, "remote", s.writeToAddr, "retry", i, "max", maxRetries, "delay", d)
 				time.Sleep(d)
 				continue
 			}
+			rawconn = tlsconn
 		}
 		break
 	}
